@@ -119,7 +119,7 @@ def _parse(text, wanted):
 
 
 def run_kani(overlay, harnesses, target="lib", harness_timeout=120, jobs=8, total_timeout=None,
-             mem_gb=12, log_path=None, extra_args=()):
+             mem_gb=14, log_path=None, extra_args=()):
     """Run the given harness names (exact short names) in one cargo-kani invocation."""
     os.makedirs(KANI_TARGET, exist_ok=True)
     cmd = ["cargo", "kani"]
@@ -143,7 +143,9 @@ def run_kani(overlay, harnesses, target="lib", harness_timeout=120, jobs=8, tota
         # compile (<= 240 s) + harnesses in waves
         waves = (len(harnesses) + max(jobs, 1) - 1) // max(jobs, 1)
         total_timeout = 300 + waves * (harness_timeout + 15)
-    shell = "ulimit -v %d; exec %s" % (mem_gb * 1024 * 1024 * max(jobs, 1), " ".join(_q(c) for c in cmd))
+    # ulimit -v is per process: every CBMC (and the compiler) may use at most mem_gb of address space; a
+    # CBMC that hits the limit reports an error, which the parser turns into "inconclusive".
+    shell = "ulimit -v %d; exec %s" % (mem_gb * 1024 * 1024, " ".join(_q(c) for c in cmd))
     t0 = time.time()
     try:
         p = subprocess.run(["bash", "-c", shell], cwd=overlay.root, env=env, stdout=subprocess.PIPE,
